@@ -207,10 +207,18 @@ message Response {
 
 
 def schema_empty():
-    """field-less message types (marker messages) in every position that carries presence, and as always-present values."""
+    """field-less message types (marker messages) in every position that carries presence, and as always-present values;
+    field-less types that capture unrecognized fields (extension slots: all their content is in XXX_unrecognized)."""
     return header("empty") + """
 message Ping {}
 message Pong {
+  option (pico.message).always_present = true;
+}
+message Slot {
+  option (pico.message).capture_unrecognized_fields = true;
+}
+message Ext {
+  option (pico.message).capture_unrecognized_fields = true;
   option (pico.message).always_present = true;
 }
 message Holder {
@@ -225,6 +233,9 @@ message Holder {
   repeated Ping many = 6;
   Pong pong = 7;
   repeated Pong pongs = 8;
+  Slot slot = 10;
+  Ext ext = 11;
+  repeated Ext exts = 12;
   Ping last = 2048;
   repeated bool flags = 2049;
 }
@@ -477,7 +488,7 @@ def random_schema(pkg, rnd, salt=0):
 
 
 BOUNDARY = {
-    "bopt": ("optional enum", lambda: header("bopt", False) + "enum E { Z = 0; }\nmessage M { optional E e = 1; }\n"),
+    "bopt": ("optional enum", lambda: header("bopt", False) + "enum E { Z = 0; A = 1; B = -1; }\nmessage M { optional E e = 1; int32 x = 2; optional E f = 3; }\n"),
     "bmap": ("map with message value", lambda: header("bmap", False) + "message V { int32 x = 1; }\nmessage M { map<string, V> m = 1; }\n"),
     "bmape": ("map with enum value", lambda: header("bmape", False) + "enum E { Z = 0; }\nmessage M { map<int32, E> m = 1; }\n"),
     "bcap": ("capture with field number >= 64", lambda: header("bcap") + "message M { option (pico.message).capture_unrecognized_fields = true; int32 a = 64; }\n"),
